@@ -725,6 +725,37 @@ func (sc *c18Scenario) Run(s *simrt.Sim) {
 			}
 		}
 	}
+	// layering: a second SimpleHTTP built over a client whose transport IS the (last used) SimpleHTTP - a request through
+	// the outer object runs the outer chain, then the inner chain, then reaches the transport, each once
+	if !sc.DefTwin {
+		log = nil
+		failAt, calls, rounds = -1, 0, 0
+		outerIc := network.Interceptor(func(req *http.Request) error { log = append(log, "outer"); return nil })
+		outer := network.NewSimpleHTTPWithClientAndInterceptors(&http.Client{Transport: sh}, &outerIc)
+		var lerr error
+		h.Do("main", "Get-through-an-outer-SimpleHTTP", nil, func() (interface{}, error) {
+			if r := outer.Get("http://c18.example.test/x"); r != nil {
+				lerr = r.Err
+			}
+			return nil, nil
+		})
+		want := []string{"outer"}
+		for _, i := range model {
+			want = append(want, fmt.Sprintf("ic%d", i))
+		}
+		want = append(want, "transport")
+		var got []string
+		for _, e := range log {
+			if strings.HasPrefix(e, "transport") {
+				e = "transport"
+			}
+			got = append(got, e)
+		}
+		if fmt.Sprint(got) != fmt.Sprint(want) || lerr != nil {
+			add("chain", "layered-SimpleHTTP-objects", fmt.Sprintf("a request through an outer SimpleHTTP whose client's transport is this SimpleHTTP: call log %v (Err=%v), want %v", log, lerr, want))
+		}
+		sc.probes["request-through-a-layered-SimpleHTTP"]++
+	}
 	// two goroutines issue a request each at the same time through the (last used) instance: every request runs
 	// the chain for itself
 	if len(model) > 0 {
